@@ -1,6 +1,7 @@
 package main
 
 import (
+	"go/ast"
 	"context"
 	"fmt"
 	"os"
@@ -154,6 +155,32 @@ func (w *World) boundsSweep(pkgs []string, timeout time.Duration) []*UnitResult 
 		}
 		keys = append(keys, full)
 	}
+	// an unexported helper without a contract that has callers among the swept functions is checked where it is called
+	// (inlined, with the caller's guards in force) instead of on its own for all arguments: extracting such a helper from a
+	// guarded piece of code must not create an obligation the original code did not have
+	edges := w.callEdges()
+	called := map[string]bool{}
+	for from, tos := range edges {
+		if fi := w.Funcs[from]; fi == nil || fi.Obj.Pkg() == nil || !want[fi.Obj.Pkg().Name()] {
+			continue
+		}
+		for to := range tos {
+			if to != from {
+				called[to] = true
+			}
+		}
+	}
+	inContext := map[string]bool{}
+	var standalone []string
+	for _, k := range keys {
+		fi := w.Funcs[k]
+		if !fi.Obj.Exported() && called[k] && w.contractFor(fi) == nil && !w.onCallCycle(k) && w.smallHelper(fi) {
+			inContext[shortKey(fi.Obj)] = true
+			continue
+		}
+		standalone = append(standalone, k)
+	}
+	keys = standalone
 	sort.Strings(keys)
 	out := make([]*UnitResult, len(keys))
 	sem := make(chan struct{}, 8)
@@ -168,8 +195,12 @@ func (w *World) boundsSweep(pkgs []string, timeout time.Duration) []*UnitResult 
 			out[i] = w.VerifyFunc(fi, w.contractFor(fi), VerifyOpts{Bounds: true, Timeout: timeout,
 				Only: func(n string) bool {
 					if i := strings.LastIndex(n, "@"); i >= 0 && strings.Contains(n[i:], ":") {
-						// a site inside an inlined callee: the callee is swept on its own, for all arguments
-						return false
+						// a site inside an inlined callee: the callee is swept on its own, for all arguments -- unless it
+						// is one of the helpers checked in context
+						callee := n[i+1 : i+1+strings.Index(n[i+1:], ":")]
+						if !inContext[fi.Obj.Pkg().Name()+"."+callee] {
+							return false
+						}
 					}
 					return strings.Contains(n, "#nopanic:") || strings.Contains(n, ".requires[bounds]")
 				}})
@@ -177,4 +208,24 @@ func (w *World) boundsSweep(pkgs []string, timeout time.Duration) []*UnitResult 
 	}
 	wg.Wait()
 	return out
+}
+
+
+// smallHelper: a function simple enough to be inlined at every call site (no loops, no function literals, short).
+func (w *World) smallHelper(fi *FuncInfo) bool {
+	if fi.Decl.Body == nil || fi.Decl.Recv != nil {
+		return false
+	}
+	ok := true
+	n := 0
+	ast.Inspect(fi.Decl.Body, func(nd ast.Node) bool {
+		switch nd.(type) {
+		case *ast.ForStmt, *ast.RangeStmt, *ast.FuncLit, *ast.GoStmt, *ast.DeferStmt:
+			ok = false
+		case ast.Stmt:
+			n++
+		}
+		return ok
+	})
+	return ok && n <= 12
 }
